@@ -116,6 +116,11 @@ def desc(e):
         if inner.get("k") == "call" and inner["a"]:
             return "await " + desc(inner["a"][0])
         return "await ?"
+    if k == "match" and str(e.get("src", "")).startswith("TryDesugar"):
+        inner = thir.peel(e["e"])
+        if inner.get("k") == "call" and inner.get("a"):
+            return desc(inner["a"][0]) + "?"
+        return "?"
     if k == "block":
         if e.get("e") is not None and not e.get("s"):
             return desc(e["e"])
@@ -321,7 +326,7 @@ class Enum:
             out = []
             tail = e.get("e")
             tp = thir.peel(tail) if isinstance(tail, dict) else None
-            simple_tail = isinstance(tp, dict) and tp.get("k") in ("adt", "lit", "var", "upvar", "call", "field", "const", "tuple")
+            simple_tail = isinstance(tp, dict) and tp.get("k") in ("adt", "lit", "var", "upvar", "call", "field", "const", "tuple", "un", "bin")
             for p in res:
                 if p.out != "val":
                     out.append(p)
